@@ -112,3 +112,222 @@ theorem decimal_digits (n : Nat) : ∀ x ∈ decimal n, x ≠ 13 ∧ x ≠ 32 :=
       · exact ih (n / 10) (by omega) x hx
       · rw [List.mem_singleton.mp hx]
         exact (digit_facts ⟨n % 10, Nat.mod_lt _ (by omega)⟩).2.2
+
+/-! ### start line and header lines of a well-formed request -/
+
+theorem dropWhile32_no32 (l : Bytes) (h : ∀ x ∈ l, x ≠ 32) : l.dropWhile (· == 32) = l := by
+  cases l with
+  | nil => rfl
+  | cons c t =>
+    have : c ≠ 32 := h c (by simp)
+    simp [this]
+
+theorem strip_no32 (l : Bytes) (h : ∀ x ∈ l, x ≠ 32) : strip l = l := by
+  unfold strip dropSpaces
+  rw [dropWhile32_no32 l h, dropWhile32_no32 l.reverse (fun x hx => h x (List.mem_reverse.mp hx))]
+  simp
+
+theorem parseStartLine_wire (m t v : Bytes) (hm : tokenOk m = true) (ht : tokenOk t = true) (hv : tokenOk v = true)
+    (hv5 : (v.take 5 == ascii "HTTP/") = true) :
+    parseStartLine (m ++ 32 :: (t ++ 32 :: v)) =
+      match methodOf m, parseUrlPath t, verOf v with
+      | some me, some u, some ve => some (me, u, ve)
+      | _, _, _ => none := by
+  simp only [tokenOk, Bool.and_eq_true, Bool.not_eq_true'] at hm ht hv
+  obtain ⟨⟨hm0, hm32⟩, _⟩ := hm
+  obtain ⟨⟨ht0, ht32⟩, _⟩ := ht
+  obtain ⟨⟨hv0, hv32⟩, _⟩ := hv
+  have s1 := tw_stop (· != 32) m 32 (t ++ 32 :: v) (all_ne hm32) (by decide)
+  have s2 := tw_stop (· != 32) t 32 v (all_ne ht32) (by decide)
+  have d1 : dropSpaces (32 :: (t ++ 32 :: v)) = t ++ 32 :: v := by
+    have : dropSpaces (32 :: (t ++ 32 :: v)) = dropSpaces (t ++ 32 :: v) := by simp [dropSpaces]
+    rw [this]; exact dropSpaces_of_head _ (head_of_all_ne ht0 ht32)
+  have d2 : dropSpaces (32 :: v) = v := by
+    have : dropSpaces (32 :: v) = dropSpaces v := by simp [dropSpaces]
+    rw [this]
+    have := head_of_all_ne (t := []) hv0 hv32
+    simp only [List.append_nil] at this
+    exact dropSpaces_of_head _ this
+  have hvne : v.isEmpty = false := hv0
+  have hv5' : (v.take 5 != ascii "HTTP/") = false := by simp [bne, hv5]
+  unfold parseStartLine
+  simp only [s1.1, s1.2, d1, s2.1, s2.2, d2, List.isEmpty_cons, Bool.false_eq_true, if_false, hvne, hv5']
+  have htne : (t ++ 32 :: v).isEmpty = false := by cases t <;> simp
+  simp only [htne, Bool.false_eq_true, if_false]
+  cases methodOf m <;> cases parseUrlPath t <;> cases verOf v <;> rfl
+
+theorem parseHeaderLine_wire (k v : Bytes) (hk58 : k.all (· != 58) = true) (hks : strip k = k)
+    (hv0 : v.isEmpty = false) (hvh : v.head? ≠ some 32) (hvs : strip v = v) :
+    parseHeaderLine (k ++ 58 :: 32 :: v) = some (k, v) := by
+  have s := tw_stop (· != 58) k 58 (32 :: v) (all_ne hk58) (by decide)
+  have d : dropSpaces (32 :: v) = v := by
+    have : dropSpaces (32 :: v) = dropSpaces v := by simp [dropSpaces]
+    rw [this]; exact dropSpaces_of_head _ hvh
+  unfold parseHeaderLine
+  simp only [s.1, s.2, d, hv0, Bool.false_eq_true, if_false, hks, hvs]
+
+theorem hdrLine_append (kv : Bytes × Bytes) (r : Bytes) :
+    hdrLine kv ++ r = (kv.1 ++ 58 :: 32 :: kv.2) ++ 13 :: 10 :: r := by
+  simp [hdrLine]
+
+def insHdr (m : List (Bytes × Bytes)) (kv : Bytes × Bytes) : List (Bytes × Bytes) := mapInsert kv.1 kv.2 m
+
+theorem hdrOk_line_no13 {kv : Bytes × Bytes} (h13k : kv.1.all (· != 13) = true) (h13v : kv.2.all (· != 13) = true) :
+    ∀ x ∈ kv.1 ++ 58 :: 32 :: kv.2, x ≠ 13 := by
+  intro x hx
+  simp only [List.mem_append, List.mem_cons] at hx
+  rcases hx with hx | rfl | rfl | hx
+  · simpa using all_ne h13k x hx
+  · decide
+  · decide
+  · simpa using all_ne h13v x hx
+
+/-- the header loop walks over printed header lines, inserting each into the map -/
+theorem headersLoop_wire (hs : List (Bytes × Bytes)) (hok : hs.all hdrOk = true) (req : Req) (clen : Option Nat)
+    (tail : Bytes) (f f2 : Nat) (hf : ((hs.map hdrLine).flatten ++ tail).length < f) (hf2 : tail.length < f2) :
+    headersLoop Cfg.fixed f req clen ((hs.map hdrLine).flatten ++ tail)
+      = headersLoop Cfg.fixed f2 { req with headers := hs.foldl insHdr req.headers } clen tail := by
+  induction hs generalizing req f with
+  | nil => simpa using headersLoop_fuel Cfg.fixed f f2 req clen tail (by simpa using hf) hf2
+  | cons kv hs ih =>
+    simp only [List.all_cons, Bool.and_eq_true] at hok
+    obtain ⟨hkv, hrest⟩ := hok
+    simp only [hdrOk, Bool.and_eq_true, Bool.not_eq_true', bne_iff_ne, ne_eq, beq_iff_eq] at hkv
+    obtain ⟨⟨⟨⟨⟨⟨⟨h58, h13k⟩, hsk⟩, hcl⟩, hv0⟩, h13v⟩, hsv⟩, hvh⟩ := hkv
+    cases f with
+    | zero => omega
+    | succ f' =>
+      have hb : ((kv :: hs).map hdrLine).flatten ++ tail
+          = (kv.1 ++ 58 :: 32 :: kv.2) ++ 13 :: 10 :: ((hs.map hdrLine).flatten ++ tail) := by simp [hdrLine]
+      rw [hb] at hf ⊢
+      have hsplit := splitCRLF_no13 (kv.1 ++ 58 :: 32 :: kv.2) ((hs.map hdrLine).flatten ++ tail) (hdrOk_line_no13 h13k h13v)
+      have hline := parseHeaderLine_wire kv.1 kv.2 h58 hsk hv0 hvh hsv
+      have hne : (kv.1 ++ 58 :: 32 :: kv.2).isEmpty = false := by cases kv.1 <;> simp
+      have hkey : (kv.1 == ascii "Content-Length") = false := by simpa using hcl
+      rw [headersLoop]
+      simp only [hsplit, hne, Bool.false_eq_true, if_false, hline, hkey]
+      have := ih hrest { req with headers := mapInsert kv.1 kv.2 req.headers } f' (by simp at hf ⊢; omega)
+      simpa [insHdr] using this
+
+theorem cl_facts : (ascii "Content-Length").all (· != 58) = true ∧ (ascii "Content-Length").all (· != 13) = true ∧
+    strip (ascii "Content-Length") = ascii "Content-Length" := by decide
+
+/-- … and ends with the Content-Length line, the blank line, and the rest -/
+theorem headersLoop_wire_tail (n : Nat) (hn : n ≤ 2 ^ 64 - 2) (req : Req) (clen : Option Nat) (b : Bytes) (f : Nat)
+    (hf : (hdrLine (ascii "Content-Length", decimal n) ++ 13 :: 10 :: b).length < f) :
+    headersLoop Cfg.fixed f req clen (hdrLine (ascii "Content-Length", decimal n) ++ 13 :: 10 :: b)
+      = .done { req with headers := mapInsert (ascii "Content-Length") (decimal n) req.headers } (some n) b := by
+  have hd := decimal_digits n
+  have hd13 : (decimal n).all (· != 13) = true := by simpa using fun x hx => (hd x hx).1
+  have hd0 : (decimal n).isEmpty = false := by simpa using decimal_ne_nil n
+  have hdh : (decimal n).head? ≠ some 32 := by
+    cases hdn : decimal n with
+    | nil => simp
+    | cons c t => have := (hd c (by simp [hdn])).2; simpa using this
+  have hds : strip (decimal n) = decimal n := strip_no32 _ (fun x hx => (hd x hx).2)
+  cases f with
+  | zero => omega
+  | succ f' =>
+    cases f' with
+    | zero => simp [hdrLine] at hf
+    | succ f'' =>
+      simp only [hdrLine_append]
+      have hsplit := splitCRLF_no13 (ascii "Content-Length" ++ 58 :: 32 :: decimal n) (13 :: 10 :: b)
+        (hdrOk_line_no13 (kv := (ascii "Content-Length", decimal n)) cl_facts.2.1 hd13)
+      have hline := parseHeaderLine_wire (ascii "Content-Length") (decimal n) cl_facts.1 cl_facts.2.2 hd0 hdh hds
+      have hne : (ascii "Content-Length" ++ 58 :: 32 :: decimal n).isEmpty = false := by
+        cases h : ascii "Content-Length" <;> simp
+      have hlen : contentLength Cfg.fixed (decimal n) = .ok (some n) := by
+        simp [contentLength, fixed_checkedLen, parseLenChecked_decimal n hn]
+      have hsplit2 : splitCRLF (13 :: 10 :: b) = some ([], b) := by simp [splitCRLF]
+      rw [headersLoop]
+      simp only [hsplit, hne, Bool.false_eq_true, if_false, hline, beq_self_eq_true, if_true, hlen]
+      rw [headersLoop]
+      simp only [hsplit2, List.isEmpty_nil, if_true]
+
+/-! ### one whole request -/
+
+theorem encode_append (w : WireReq) (rest : Bytes) :
+    w.encode ++ rest = (w.method ++ 32 :: (w.target ++ 32 :: w.version)) ++ 13 :: 10 ::
+      ((w.headers.map hdrLine).flatten ++ (hdrLine (contentLengthHdr w) ++ 13 :: 10 :: (w.body ++ rest))) := by
+  simp [WireReq.encode]
+
+theorem token_no13 {b : Bytes} (h : tokenOk b = true) : ∀ x ∈ b, x ≠ 13 := by
+  simp only [tokenOk, Bool.and_eq_true] at h
+  intro x hx
+  simpa using all_ne h.2 x hx
+
+/-- functional correctness of `parse` on one well-formed request followed by anything -/
+theorem parse_wire (w : WireReq) (hw : w.wellFormed = true) (ps : PState) (hps : ps.st = .init) (rest : Bytes) :
+    parse Cfg.fixed ps (w.encode ++ rest) = .ok ⟨.all, w.toReq, some w.body.length⟩ rest := by
+  simp only [WireReq.wellFormed, Bool.and_eq_true, decide_eq_true_eq] at hw
+  obtain ⟨⟨⟨⟨⟨⟨⟨⟨hm, hmo⟩, ht⟩, hto⟩, hv⟩, hv5⟩, hvo⟩, hh⟩, hn⟩ := hw
+  rw [parse_init_eq _ ps hps, encode_append]
+  have hline13 : ∀ x ∈ w.method ++ 32 :: (w.target ++ 32 :: w.version), x ≠ 13 := by
+    intro x hx
+    simp only [List.mem_append, List.mem_cons] at hx
+    rcases hx with hx | rfl | hx | rfl | hx
+    · exact token_no13 hm x hx
+    · decide
+    · exact token_no13 ht x hx
+    · decide
+    · exact token_no13 hv x hx
+  have hsplit := splitCRLF_no13 _ ((w.headers.map hdrLine).flatten ++
+      (hdrLine (contentLengthHdr w) ++ 13 :: 10 :: (w.body ++ rest))) hline13
+  obtain ⟨me, hme⟩ := Option.isSome_iff_exists.mp hmo
+  obtain ⟨u, hu⟩ := Option.isSome_iff_exists.mp hto
+  obtain ⟨ve, hve⟩ := Option.isSome_iff_exists.mp hvo
+  have hstart := parseStartLine_wire w.method w.target w.version hm ht hv hv5
+  simp only [hme, hu, hve] at hstart
+  simp only [parse, PState.init, fixed_crlfFirst, Bool.not_true, Bool.false_and, Bool.false_eq_true, if_false, hsplit,
+    startLineLit_of_split hsplit, hstart, headersStage]
+  rw [headersLoop_wire w.headers hh _ none _ _
+      ((hdrLine (contentLengthHdr w) ++ 13 :: 10 :: (w.body ++ rest)).length + 1) (by omega) (by omega)]
+  rw [contentLengthHdr, headersLoop_wire_tail w.body.length hn _ none (w.body ++ rest) _ (by omega)]
+  simp only [bodyStage]
+  have hle : w.body.length ≤ (w.body ++ rest).length := by simp
+  simp only [hle, if_true, List.take_left' rfl, List.drop_left' rfl]
+  simp [WireReq.toReq, hme, hu, hve, List.foldl_append, contentLengthHdr]
+  rfl
+
+/-! ### a pipeline of well-formed requests through the feed loop -/
+
+theorem encode_ne_nil (w : WireReq) (rest : Bytes) : (w.encode ++ rest).isEmpty = false := by
+  unfold WireReq.encode
+  cases w.method <;> simp
+
+theorem feedLoop_wire (markP : Req → Bool) (ws : List WireReq) (hws : ∀ w ∈ ws, w.wellFormed = true)
+    (d cl : Bool) (f : Nat) (hf : ((ws.map WireReq.encode).flatten).length < f) :
+    reqsOf (feedLoop Cfg.fixed markP f ⟨PState.init, (ws.map WireReq.encode).flatten, d, cl⟩).evs
+      = expectedReqs markP ws := by
+  induction ws generalizing f cl with
+  | nil =>
+    cases f with
+    | zero => omega
+    | succ f' => simp [feedLoop, reqsOf, expectedReqs]
+  | cons w ws ih =>
+    cases f with
+    | zero => omega
+    | succ f' =>
+      have hp := parse_wire w (hws w (by simp)) PState.init rfl (ws.map WireReq.encode).flatten
+      have hne := encode_ne_nil w (ws.map WireReq.encode).flatten
+      simp only [List.map_cons, List.flatten_cons] at hf ⊢
+      simp only [feedLoop, hne, Bool.false_eq_true, if_false, hp, fixed_stop, Bool.and_true, Option.isSome_some]
+      by_cases hl : markP w.toReq = true
+      · simp [hl, reqsOf, expectedReqs]
+      · simp only [hl, Bool.false_eq_true, if_false, reqsOf_cons_parsed, reqsOf_cons_req, expectedReqs]
+        rw [ih (fun x hx => hws x (by simp [hx])) _ f' (by
+          have : 0 < w.encode.length := by simp [WireReq.encode]; omega
+          rw [List.length_append] at hf; omega)]
+
+theorem expectedReqs_declared (markP : Req → Bool) (ws : List WireReq) :
+    (expectedReqs markP ws).all (fun x => x.2.2) = true := by
+  induction ws with
+  | nil => rfl
+  | cons w ws ih =>
+    unfold expectedReqs
+    split
+    · rfl
+    · simpa using ih
+
+end Tbox.C12
